@@ -108,6 +108,15 @@ def make_world(rng):
         files[nm] = files[binaries[0]]
         binaries.append(nm)
         binmeta[nm] = binmeta[binaries[0]]
+    # the same base name in two directories
+    if len(binaries) >= 1 and rng.random() < 0.6:
+        other = _two_section_object(rng)[0]
+        if other is not None:
+            files["debug/prog.o"] = files[binaries[0]]
+            files["release/prog.o"] = other
+            for nm in ("debug/prog.o", "release/prog.o"):
+                binaries.append(nm)
+                binmeta[nm] = binmeta[binaries[0]]
     pool = []
 
     def add(family, variant, doc, pref, typ="assembly", macros=None, raw=None, stage=None):
@@ -319,6 +328,14 @@ def make_world(rng):
                     if isinstance(x, dict):
                         x["$deref"]["main_reg"] = [{"$or": [x["$deref"]["main_reg"], "%xmm7"]}]
                 add("deref", "or_in_field", {"pattern": [{mn: orr}]}, li)
+
+    # ---- rules whose texts are near twins under weak checksums (same bytes permuted; Adler-32 collisions of the
+    #      +1,-1,-1,+1 kind): anything that identifies a rule by a cheap hash mixes them up
+    if listings:
+        li = rng.choice([x for x in listings if x in files] or listings)
+        files[li] = files.get(li, "") + "  7f1000:\t48 c7 c0 12 21 00 00 \tmov    $0x2112,%rax\n  7f1007:\t48 c7 c3 21 12 00 00 \tmov    $0x1234,%rbx\n" if li in files else ""
+        for vname, opnd in (("a", "0x1221"), ("b", "0x2112"), ("c", "0x1234"), ("d", "0x4321"), ("e", "0x2143")):
+            add("hashsibling", vname, {"pattern": [{"mov": [opnd]}]}, li)
 
     # ---- names that are regular-expression text (what the DSL passes through to the engine), incl. constructs
     #      whose meaning depends on engine-level settings
